@@ -485,7 +485,7 @@ def run(chk):
                 "AST containment: generated multi-line programs over all non-compile-time heads; non-trivial = raising form "
                 "not on line 1 / program with more than 3 lines" % (len(CONTEXTS), len(RAISERS), 3 if thorough else 1))
     traceback_oracle(chk, hy, thorough)
-    ast_containment(chk, hy, 6000 if thorough else 250)
+    ast_containment(chk, hy, 6000 if thorough else 500)
 
 
 def replay(path):
